@@ -464,7 +464,7 @@ pub fn run(run: &mut Run) {
     }
     let long_results = mcx::par_map(long_cases.len(), |i| {
         let (tp, f, l) = long_cases[i];
-        long_case(tp, f, l, if quick { 1 } else { 2 })
+        long_case(tp, f, l, if quick || l > 130 { 1 } else { 2 })
     });
     for (i, (leaves, cps, viols)) in long_results.into_iter().enumerate() {
         run.evaluations += leaves;
@@ -479,7 +479,7 @@ pub fn run(run: &mut Run) {
         }
     }
     run.bound("long_lengths", json!(long_lengths(quick)));
-    run.bound("long_uniform_deviation_bound", json!(if quick { 1 } else { 2 }));
+    run.bound("long_uniform_deviation_bound", json!(if quick { "1" } else { "2 up to 130 genes, 1 beyond" }));
     let p = primitives(run);
     run.evaluations += p;
     run.transitions += p;
